@@ -150,6 +150,8 @@ def trace_findings(result: dict, rec: dict) -> list[tuple[set[str], str, dict]]:
         own = {"C01", "C14", "C02"}
         if d0.get("spec_accepts") and not d0.get("impl_ok"):
             own |= {"C03"}          # a well-formed document did not yield an AST
+        if str(d0.get("exc", "")).startswith("errors:"):
+            own |= {"C04"}          # an error whose message does not start with its own position / an unknown message shape
         out.append((own, "end:outcome", d0))
     if not v["delivered"]:
         out.append(({"C18"}, "end:delivered", {}))
